@@ -178,11 +178,12 @@ def handshake_facts(fn):
     need(len(all_ra_uses(fn)) == len(stores), "_handshake: response_annotations is used other than by `= {}`")
     i_recv = first_index(tr.body, lambda st: contains(st, lambda n: isinstance(n, ast.Attribute) and n.attr == "recv_stub"))
     i_valid = first_index(tr.body, lambda st: contains(st, lambda n: isinstance(n, ast.Attribute) and n.attr == "validateHandshake"))
-    need(i_recv == 0 and i_valid is not None, "_handshake: recv_stub is not the first statement of the try / validateHandshake not found")
+    need(i_recv is not None and i_valid is not None and i_recv < i_valid and all(is_reset(s) for s in tr.body[:i_recv]),
+         "_handshake: recv_stub is not the first statement of the try / validateHandshake not found")
     before = [s for s in fn.body[:ti] if is_reset(s)]
     inside = [i for i, s in enumerate(tr.body) if is_reset(s)]
     need(len(stores) == len(before) + len(inside), "_handshake: response_annotations is reset in an unrecognised position")
-    if before:
+    if before or (inside and inside[0] < i_recv):
         pos = 2
     elif inside and inside[0] < i_valid:
         # a `raise Exception(denied_reason)` or any failing statement between recv_stub and the reset would skip it
